@@ -458,6 +458,7 @@ def exec_seq(sess: Session, op: dict, step: int) -> Effect:
     before = _before(owner)
     sp_b = _span_before(before, owner)
     old_item_ids = {id(x) for x in raw_before}
+    item_tokens_before = {id(x): ids_of(x) for x in raw_before} if is_view else {}
     meta_indents = [it.indent for it in raw_before if isinstance(it, models.MetaItem)]
 
     # --- python reference ---------------------------------------------------
@@ -611,7 +612,8 @@ def exec_seq(sess: Session, op: dict, step: int) -> Effect:
             if id(x) in old_item_ids and isinstance(x, models.RawTokenModel):
                 inplace_ids.add(id(x))
             elif id(x) in old_item_ids and type(owner) is models.Custom:
-                inplace_ids |= ids_of(x)
+                # a value assigned over a NumberExpr item replaces the tokens inside that item
+                inplace_ids |= ids_of(x) | item_tokens_before.get(id(x), set())
     sibs = sibling_snapshot(owner, {slot})
     kept = [x for x in raw_after if id(x) in old_item_ids and id(x) not in inplace_ids and not (ids_of(x) & inplace_ids)]
     # kept items are siblings too: their tokens were captured before
